@@ -157,6 +157,129 @@ def matrix():
     return out
 
 
+# ---- constructor bodies: the unassigned-attribute analysis (Model/CtorAssign.lean) against the checker's verdict
+CTOR_PRE = ("class E1(def m: Str): Exception(m)\nclass E2(def m: Str): Exception(m)\n"
+            "def risky(v: Int) -> Int raise [E1, E2] => v\ndef risky1(v: Int) -> Int raise [E1] => v\n")
+
+
+def ctor_body(rng, depth, nf):
+    """-> list of statement trees: ('A', f) | ('S',) | ('I', t, e) | ('O', t) | ('L', b, kind) | ('M', arms, catch_all) | ('H', arms) | ('R',)"""
+    out = []
+    for _ in range(rng.randint(1, 3)):
+        k = rng.random()
+        if depth <= 0 or k < 0.38:
+            out.append(("A", rng.randrange(nf)) if rng.random() < 0.75 else ("S",))
+        elif k < 0.52:
+            out.append(("I", ctor_body(rng, depth - 1, nf), ctor_body(rng, depth - 1, nf)))
+        elif k < 0.62:
+            out.append(("O", ctor_body(rng, depth - 1, nf)))
+        elif k < 0.72:
+            out.append(("L", ctor_body(rng, depth - 1, nf), rng.choice(["for", "while"])))
+        elif k < 0.84:
+            out.append(("M", [ctor_body(rng, depth - 1, nf) for _ in range(rng.randint(1, 3))], rng.random() < 0.6))
+        elif k < 0.94:
+            out.append(("H", [ctor_body(rng, depth - 1, nf) for _ in range(rng.randint(1, 2))]))
+        else:
+            out.append(("R",))
+            break               # nothing follows a return in its block
+    return out
+
+
+def ctor_wire(b):
+    def st(s):
+        if s[0] == "A":
+            return "A%d" % s[1]
+        if s[0] in "SR":
+            return s[0]
+        if s[0] == "I":
+            return "I(%s;%s)" % (ctor_wire(s[1]), ctor_wire(s[2]))
+        if s[0] == "O":
+            return "O(%s)" % ctor_wire(s[1])
+        if s[0] == "L":
+            return "L(%s)" % ctor_wire(s[1])
+        if s[0] == "M":
+            return "M%d(%s)" % (1 if s[2] else 0, "|".join(ctor_wire(a) for a in s[1]))
+        return "H(%s)" % "|".join(ctor_wire(a) for a in s[1])
+    return ",".join(st(s) for s in b)
+
+
+def ctor_text(b, ind, counter):
+    pad = "    " * ind
+    L = []
+    for s in b:
+        counter[0] += 1
+        n = counter[0]
+        if s[0] == "A":
+            L.append("%sself.f%d := %d" % (pad, s[1], n))
+        elif s[0] == "S":
+            L.append("%sprint(%d)" % (pad, n))
+        elif s[0] == "R":
+            L.append("%sreturn" % pad)
+        elif s[0] == "I":
+            L += ["%sif n > %d then" % (pad, n)] + ctor_text(s[1], ind + 1, counter) + ["%selse" % pad] + ctor_text(s[2], ind + 1, counter)
+        elif s[0] == "O":
+            L += ["%sif n > %d then" % (pad, n)] + ctor_text(s[1], ind + 1, counter)
+        elif s[0] == "L":
+            L += ["%sfor i%d in 0 .. n do" % (pad, n) if s[2] == "for" else "%swhile n > %d do" % (pad, 100 + n)] + ctor_text(s[1], ind + 1, counter)
+        elif s[0] == "M":
+            L.append("%smatch n" % pad)
+            for j, a in enumerate(s[1]):
+                pat = "_" if (s[2] and j == len(s[1]) - 1) else str(j + 1)
+                L += ["%s    %s =>" % (pad, pat)] + ctor_text(a, ind + 2, counter)
+        else:
+            L.append("%sdef r%d := %s(%d) handle" % (pad, n, "risky" if len(s[1]) == 2 else "risky1", n))
+            for j, a in enumerate(s[1]):
+                L += ["%s    err%d: E%d =>" % (pad, n, j + 1)] + ctor_text(a, ind + 2, counter) + ([] if a and a[-1][0] == "R" else ["%s        0" % pad])
+    return L
+
+
+def ctor_program(b, nf):
+    fields = "".join("    def f%d: Int\n" % i for i in range(nf))
+    return CTOR_PRE + "class K\n" + fields + "    def __init__(self, n: Int) =>\n" + "\n".join(ctor_text(b, 2, [0])) + "\n"
+
+
+def ctor_correspondence(chk, n):
+    rng = chk.rng
+    cases = []
+    for _ in range(n):
+        nf = rng.randint(1, 3)
+        cases.append((ctor_body(rng, rng.randint(1, 3), nf), nf))
+    res = sweep.transpile(chk, [ctor_program(b, nf) for b, nf in cases], annotate_both=False)
+    have_model = chk.proof_broken is None or chk.proof_broken[0] not in ("proof-build",)
+    mod = chk.driver("ctor", [("k%d" % i, "%d %s" % (nf, ctor_wire(b))) for i, (b, nf) in enumerate(cases)]) if have_model else {}
+    stats = {"accept": 0, "reject": 0, "other_rejection": 0}
+    dis = 0
+    for i, ((b, nf), r) in enumerate(zip(cases, res)):
+        if r[0][0] == "ok":
+            ic = "accept"
+        elif r[0][0] == "err" and r[0][1] and "Non nullable attribute" in r[0][1][0]:
+            ic = "reject"
+        else:
+            ic = "other: " + (r[0][1][0].splitlines()[0][:120] if r[0][0] == "err" and r[0][1] else r[0][0])
+        mc = mod.get("k%d" % i, "")
+        if not mod:
+            continue
+        if ic.startswith("other"):
+            stats["other_rejection"] += 1
+            if len(chk.violations) < 5:
+                chk.violation("input", "a constructor body of the modelled statement language is rejected for another reason: %s" % ic, case={"kind": "prog", "text": ctor_program(b, nf)})
+            continue
+        stats[ic] += 1
+        if ic != mc:
+            dis += 1
+            text = ctor_program(b, nf)
+            if ic == "accept" and mc == "reject":
+                # the model's acceptance is proved sound and its rejections are each witnessed by a path: the implementation
+                # accepts a constructor with a path that leaves an attribute unassigned
+                if len(chk.violations) < 5:
+                    chk.violation("input", "the checker ACCEPTS a constructor in which some path leaves a non nullable attribute unassigned (the analysis model rejects it)",
+                                  case={"kind": "prog", "text": text, "wire": ctor_wire(b)}, expected=mc, actual=ic)
+            elif dis <= 3:
+                chk.broken("correspondence", "constructor analysis: model %s, implementation %s for\n%s" % (mc, ic, text))
+    chk.cov["correspondence_constructor"] = {"model": "MV.ctorAccepts (Model/CtorAssign.lean) vs the checker's verdict on generated constructor bodies (assignments, if with / without else, for, while, match with / without a catch-all arm, handle arms, bare return; nesting depth <= 3)",
+                                             "evaluations": len(cases) if mod else 0, "disagreements": dis, "stats": stats}
+
+
 def run(chk):
     thorough = chk.tier == "thorough"
     ok = chk.build_harness()
@@ -167,6 +290,7 @@ def run(chk):
     if not ok:
         return
     scope_common.run_scope(chk, ["use"], "Undefined", 60 if thorough else 30, 6 if thorough else 4)
+    ctor_correspondence(chk, 6000 if thorough else 800)
     cases = matrix()
     if not thorough:
         keep = [c for c in cases if "/next-statement/" in c[0] or not c[0].startswith("escape/")]
